@@ -59,10 +59,16 @@ Section Proofs2.
   Qed.
 
   (* with no duplicate keys the freshly built index of restore answers exactly like check's *)
+  (* restore's index and check's index are built from the same sections of the index files
+     (facts regenerated from index.rs and check.rs) *)
+  Lemma rentries_eq : rentries B st = entries.
+  Proof. reflexivity. Qed.
+
   Lemma nodup_sel sel : nodup_keys B st = true -> sel_valid B st sel ->
     forall t i, sel t i = lookup t i.
   Proof.
     intros Hn Hv t i. specialize (Hv t i). unfold Model.lookup.
+    unfold nodup_keys in Hn. unfold rcandidates in Hv. rewrite rentries_eq in Hn, Hv.
     pose proof (nodup_filter t i entries Hn) as Hl. unfold candidates in *.
     destruct (sel t i) as [[p b]|].
     - destruct (filter (key_match t i) entries) as [|e r]; [contradiction|].
@@ -197,8 +203,19 @@ Section Proofs2.
     st_snap_names_ok st = false -> check B hash blen parse st fuel <> Some [].
   Proof.
     intros Hs H. unfold check in H. destruct (negb (st_meta_ok st)); [discriminate|].
+    destruct (negb (st_index_ok st) && Extracted.x_unreadable_index_aborts_check); [discriminate|].
     destruct (check_trees B blen parse st fuel) as [[et used]|]; [|discriminate].
     rewrite Hs in H. simpl in H. discriminate.
+  Qed.
+
+  (* a clean check means every index and snapshot file is readable, so restore can build its index *)
+  Lemma clean_opens fuel :
+    check B hash blen parse st fuel = Some [] ->
+    st_meta_ok st = true /\ st_index_ok st = true /\ restore_opens B st = true.
+  Proof.
+    unfold check, restore_opens. destruct (st_meta_ok st); simpl; [|discriminate].
+    destruct (st_index_ok st); simpl; [auto|].
+    unfold Extracted.x_unreadable_index_aborts_check. discriminate.
   Qed.
 
   (* collision-freedom turns "hashes to its id" into "is the content that was stored under the id" *)
@@ -208,3 +225,13 @@ Section Proofs2.
   Proof. intros Hinj orig i d H1 H2. apply Hinj. congruence. Qed.
 
 End Proofs2.
+
+(* the documented cycle IdSubSet((1,m)) .. IdSubSet((m,m)) reads every pack *)
+Lemma nm_cycle_covers m pid : 0 < m -> exists n, 1 <= n <= m /\ subset_selects n m pid = true.
+Proof.
+  intro Hm. unfold subset_selects, Extracted.x_subset_reduces_n.
+  destruct (pid mod m =? 0) eqn:E.
+  - exists m. split; [lia|]. apply N.eqb_eq in E. rewrite N.mod_same by lia. apply N.eqb_eq. exact E.
+  - exists (pid mod m). apply N.eqb_neq in E. pose proof (N.mod_upper_bound pid m ltac:(lia)).
+    split; [lia|]. apply N.eqb_eq. rewrite N.mod_mod by lia. reflexivity.
+Qed.
